@@ -43,6 +43,11 @@ CLAIMED = {
     'C13': ('5-C13', 'One field of each compiled model is a solver variable (or absent) at every position: the loader must raise '
             'LvsModelError iff the documented sanity rules are broken and queries on accepted models terminate within a step '
             'budget. Ill-formed schema texts are concrete programs: enumerated and reported separately (not solver-quantified).'),
+    'C18': ('5-C18', 'One handler step from an arbitrary valid state (symbolic vectors through the real codec), the timer step, a whole '
+            'suppression period on the virtual clock and publication are compared with the entry-wise-maximum model for all '
+            'sequence numbers in the bound. Bounded.'),
+    'C19': ('5-C19', 'The real fetch generator runs against a stub producer; discovery segment number (64-bit symbolic), every loss '
+            'pattern (one solver Boolean per attempt), retry limit, object size and final-block marker are explored. Bounded.'),
 }
 NOT_YET = 'check not built yet in this revision of /verif (planned in DESIGN.md section 5)'
 NA = {
